@@ -25,6 +25,17 @@ Definition w2_dc := {| d_lead := []; d_after := [[mkd "$" [] (Some BZero)]] |}.
 Lemma fixed_zero : wf w2_toks w2_dc = true /\ excluded w2_toks w2_dc = false /\
   strip_bonding_descriptors fo0 (render (decorate w2_toks w2_dc)) = Ok (S "C", [(0, [S "$0"])], [], []).
 Proof. split; [vm_compute; reflexivity|]. split; vm_compute; reflexivity. Qed.
+(** ':' as the order symbol of a descriptor is order 1.5: C:[$a]c and the leading [$]:c *)
+Definition w4_toks := [C_; TAtom (S "c")].
+Definition w4_dc := {| d_lead := []; d_after := [[mkd "$" (S "a") (Some BArom)]; []] |}.
+Definition w5_toks := [TAtom (S "c")].
+Definition w5_dc := {| d_lead := [mkd "$" [] (Some BArom)]; d_after := [[]] |}.
+Lemma arom_order :
+  wf w4_toks w4_dc = true /\ excluded w4_toks w4_dc = false /\ to_string (render (decorate w4_toks w4_dc)) = "C:[$a]c"%string /\
+  strip_bonding_descriptors fo0 (render (decorate w4_toks w4_dc)) = Ok (S "Cc", [(0, [S "$a1.5"])], [], []) /\
+  wf w5_toks w5_dc = true /\ to_string (render (decorate w5_toks w5_dc)) = "[$]:c"%string /\
+  strip_bonding_descriptors fo0 (render (decorate w5_toks w5_dc)) = Ok (S "c", [(0, [S "$1.5"])], [], []).
+Proof. repeat split; vm_compute; reflexivity. Qed.
 (** class 3: [<][#PEO]|4[>] *)
 Definition w3_toks := [TBracket (S "#PEO") None; TMult 4].
 Definition w3_dc := {| d_lead := [mkd "<" [] None]; d_after := [[]; [mkd ">" [] None]] |}.
